@@ -465,6 +465,14 @@ func projectRecursive(at *AttributeExpr, vat *NamedAttributeExpr, view string, s
 		ar.ElemType = pat
 	}
 
+	if mp := AsMap(at.Type); mp != nil {
+		pat, err := projectRecursive(mp.ElemType, vat, view, seen)
+		if err != nil {
+			return nil, err
+		}
+		mp.ElemType = pat
+	}
+
 	return at, nil
 }
 
